@@ -82,6 +82,23 @@ def gen_cases(rng, tier):
         if gtf:
             c["fmt"] = "gtf"
         cases.append(c)
+    # three-level chains stored by create_db, then one member arrives again through update() with other Parent values:
+    # the links derived from the first version (level 2, already in the table) must follow the strategy too
+    chain = [imp.mkfeat(s=1, e=100, attrs=[["ID", ["p1"]]]), imp.mkfeat(s=201, e=300, attrs=[["ID", ["p2"]]]),
+             imp.mkfeat(s=1, e=100, type_="mRNA", attrs=[["ID", ["a"]], ["Parent", ["p1"]]]),
+             imp.mkfeat(s=201, e=300, type_="mRNA", attrs=[["ID", ["b"]], ["Parent", ["p2"]]]),
+             imp.mkfeat(s=5, e=6, type_="exon", attrs=[["ID", ["x"]], ["Parent", ["a"]]])]
+    again = [imp.mkfeat(s=1, e=100, type_="mRNA", attrs=[["ID", ["a"]], ["Parent", ["p2"]]]),
+             imp.mkfeat(s=1, e=100, type_="mRNA", attrs=[["ID", ["a"]]]),
+             imp.mkfeat(s=5, e=6, type_="exon", attrs=[["ID", ["x"]], ["Parent", ["b"]]]),
+             imp.mkfeat(s=5, e=6, type_="exon", attrs=[["ID", ["x"]], ["Parent", ["a", "b"]]]),
+             imp.mkfeat(s=1, e=100, attrs=[["ID", ["p1"]], ["Parent", ["p2"]]])]
+    for st in STRATS:
+        for f2 in again:
+            cases.append({"strategy": st, "force": [], "feats": chain + [f2], "split": len(chain)})
+            cases.append({"strategy": st, "force": [], "feats": chain + [f2]})
+        for f2, f3 in itertools.permutations(again, 2):
+            cases.append({"strategy": st, "force": [], "feats": chain + [f2, f3], "split": len(chain)})
     for n in (2, 3):
         for seq in itertools.product(range(len(ALPHA)), repeat=n):
             for st in ("merge", "create_unique", "replace"):
